@@ -46,6 +46,10 @@ type bad struct{}
 // unsafePtr boxes a pointer that went through unsafe.Pointer.
 type unsafePtr struct{ p value }
 
+// symSlice is an opaque slice whose length is symbolic and whose elements
+// cannot be accessed (rt.OpaqueBytes); only len/cap and passing it on work.
+type symSlice struct{ n *smt.Term }
+
 // symStr is a string of concrete length whose bytes may be symbolic
 // (each element is uint8 or *smt.Term of sort BV8).
 type symStr struct{ b []value }
